@@ -312,9 +312,26 @@ func (h *handler) serveExec(w http.ResponseWriter, r *http.Request) {
 }
 
 func validateCommand(b []byte) error {
-	// Ensure command can be deserialized before applying.
-	if err := proto.Unmarshal(b, &internal.Command{}); err != nil {
+	// Ensure command can be deserialized and applied before proposing it:
+	// the state machine panics, on every replica, on a command it cannot apply.
+	var cmd internal.Command
+	if err := proto.Unmarshal(b, &cmd); err != nil {
 		return fmt.Errorf("unable to unmarshal command: %s", err)
+	}
+	switch cmd.GetType() {
+	case internal.Command_DeleteNodeCommand, internal.Command_UpdateNodeCommand:
+		// No-ops kept for logs written by < 0.10.0, applied without reading a payload.
+		return nil
+	case internal.Command_SetDefaultRetentionPolicyCommand:
+		return fmt.Errorf("unsupported command type: %v", cmd.GetType())
+	}
+	// The payload of command type N is the extension field 100+N (see internal/meta.proto).
+	desc, ok := proto.RegisteredExtensions(&cmd)[int32(cmd.GetType())+100]
+	if !ok {
+		return fmt.Errorf("unknown command type: %v", cmd.GetType())
+	}
+	if _, err := proto.GetExtension(&cmd, desc); err != nil {
+		return fmt.Errorf("unable to decode %v: %s", cmd.GetType(), err)
 	}
 	return nil
 }
